@@ -187,6 +187,27 @@ def discovery_flag_consulted(ctx: Context, rule_id: str) -> None:
         )
     else:
         rule.ok(key, f"{len(readers)} reader node(s) cut every path to {len(exits)} exit(s)")
+    # 'an error ... and nothing is scanned': the call that processes the files runs only when the flag is
+    # false - the flag alone decides, whatever else was collected before the error
+    from sa.util import forward_taint, guards_of
+
+    carriers = forward_taint(prog, [(main, flag_var)], any_expression=False)
+    process = prog.method(FSH, "process_files_to_scan")
+    sites = [site for site in prog.callers.get(process.qualname, [])]
+    if not sites:
+        raise AnalysisError("no call of FileScanHelper.process_files_to_scan found")
+    for site in sites:
+        names = carriers.get(site.caller.qualname, set())
+        skey = func_key(site.caller, site.node) + " [only without a discovery error]"
+        if not names:
+            rule.fail(skey, site.where, f"{site.caller.short} processes files without having been given the discovery error flag")
+            continue
+        excluded = any((not polarity) and isinstance(test, ast.Name) and test.id in names for test, polarity in guards_of(site.caller.node, site.node))
+        if excluded:
+            rule.ok(skey, f"runs only when '{sorted(names)[0]}' is false")
+        else:
+            facts = [("" if pol else "not ") + norm(t)[:60] for t, pol in guards_of(site.caller.node, site.node)]
+            rule.fail(skey, site.where, f"files are processed under {facts}: the discovery error flag alone does not stop the run, so after an unusable argument the files collected from the arguments before it are still scanned or fixed (and the outcome depends on the order of the arguments)")
 
 
 # --------------------------------------------------------------------------------------
